@@ -19,7 +19,7 @@ CAND = ["x", "xM", "xA", "xC", "y", "yM", "yA", "yC", "zz", "None", "kind", "xTo
 
 
 def bounds(tier):
-    return dict(tier=tier, alias_assignments=64, flags=4, field_types=["int (converted)", "Any (passed through)"], discriminator=[False, True], inheritance=["flat", "x in parent / y in subclass", "x in grandparent under another alias, re-declared by the parent, y in subclass"], entry_points=["mixin", "codec", "via-base"],
+    return dict(tier=tier, alias_assignments=64, flags=4, field_types=["int (converted)", "Any (passed through)"], discriminator=[False, True], inheritance=["flat", "x in parent / y in subclass", "x in grandparent under another alias, re-declared by the parent, y in subclass", "x in a parent whose own Config has the opposite allow flag"], entry_points=["mixin", "codec", "via-base"],
                 candidate_keys=CAND, key_subsets=2 ** len(CAND))
 
 
@@ -32,7 +32,9 @@ def units(tier):
                     for anytyped in (False, True):      # int fields are converted, Any fields are passed through as they are
                         # x declared by a parent class with the same Config, y added by the subclass; 2 = three levels: a grandparent
                         # declares x under ANOTHER metadata alias, the parent re-declares it, the subclass adds y
-                        for inherit in (False, True, 2):
+                        # 3 = like True, but the parent's own Config has the OPPOSITE allow_deserialization_not_by_alias (the Config in
+                        # effect for the class being loaded decides, not the one of the class that declares the field)
+                        for inherit in (False, True, 2, 3):
                             out.append((xs, ys, allow, forbid, discr, anytyped, inherit))
     return out
 
@@ -62,6 +64,9 @@ def build(xs, ys, allow, forbid, discr, mixin, ctx, anytyped=False, inherit=Fals
     def mk_parent(pbases):
         # the parent is a complete class of its own (compiled first, same flags, its own alias table)
         pcfg = type("Config", (BaseConfig,), dict(cfg, aliases={k: v for k, v in aliases.items() if k == "x"}))
+        if inherit == 3:
+            pcfg = type("Config", (BaseConfig,), dict(cfg, aliases={k: v for k, v in aliases.items() if k == "x"},
+                                                      allow_deserialization_not_by_alias=not allow))
         if inherit == 2:
             top = make_dataclass("Top", [("x", base_t, field(metadata={"alias": "xTop"}))], bases=pbases,
                                  namespace={"Config": pcfg, "__module__": ctx.modname})
